@@ -441,7 +441,8 @@ where
         }
         new_graph.add_node(Node::from_name_and_attributes(i, nodes));
     });
-    graph.get_all_edges().iter().for_each(|e| {
+    // edges are aggregated in a fixed order so that the summed weights round identically on every call
+    graph.get_all_edges().into_iter().sorted().for_each(|e| {
         let com1 = node2com.get(&e.u).unwrap();
         let com2 = node2com.get(&e.v).unwrap();
         let new_graph_edge_weight = new_graph
